@@ -269,6 +269,13 @@ func c19Concrete(r *Run, c *c19env) {
 			msg := catchPanic(func() {
 				o, pis := variables.DeserializeProofWithPublicInputs(types.ReadProofWithPublicInputsFromRequest(text))
 				gotS = canon(o) + canon(pis)
+				// the path-based reader must agree with the request-based one
+				tmp := filepath.Join(r.Scratch, "c19_doc.json")
+				os.WriteFile(tmp, text, 0o644)
+				o2, pis2 := variables.DeserializeProofWithPublicInputs(types.ReadProofWithPublicInputs(tmp))
+				if g2 := canon(o2) + canon(pis2); g2 != gotS {
+					gotS = g2
+				}
 			})
 			docs++
 			if msg != "" || gotS != wantP {
@@ -284,6 +291,7 @@ func c19Concrete(r *Run, c *c19env) {
 	r.Extra["documents_read_concretely"] = docs
 	// ---- (b) single-value corruptions on the small real file
 	corr := c19Corruptions(r, paths["test_circuit"][0])
+	corr += c19CorruptOther(r, paths["test_circuit"][1], paths["test_circuit"][2])
 	r.Extra["corruptions_confirmed_refused"] = corr
 	// gnark refuses a nil *big.Int when the assignment becomes a witness (contract of the SetString stub)
 	_, werr := frontend.NewWitness(&witnessProbe{X: (*big.Int)(nil)}, R)
@@ -481,27 +489,143 @@ func c19Corruptions(r *Run, path string) int {
 			dec.Decode(&doc)
 			e.apply(doc, bad.v)
 			text, _ := json.Marshal(doc)
-			var out variables.ProofWithPublicInputs
-			msg := catchPanic(func() {
-				out, _ = variables.DeserializeProofWithPublicInputs(types.ReadProofWithPublicInputsFromRequest(text))
-			})
-			refused := msg != ""
-			how := "refused when reading"
-			if !refused {
-				// must be refused at witness construction: some leaf is a nil *big.Int
-				_, err := frontend.NewWitness(&proofProbe{P: out}, R)
-				refused = err != nil
-				how = "refused at witness construction"
+			tmp := filepath.Join(r.Scratch, "c19_corrupt.json")
+			os.WriteFile(tmp, text, 0o644)
+			refused := true
+			reader := ""
+			for ri, rd := range []func() types.ProofWithPublicInputsRaw{
+				func() types.ProofWithPublicInputsRaw { return types.ReadProofWithPublicInputsFromRequest(text) },
+				func() types.ProofWithPublicInputsRaw { return types.ReadProofWithPublicInputs(tmp) },
+			} {
+				var out variables.ProofWithPublicInputs
+				msg := catchPanic(func() { out, _ = variables.DeserializeProofWithPublicInputs(rd()) })
+				ok1 := msg != ""
+				if !ok1 {
+					// must be refused at witness construction: some leaf is a nil *big.Int
+					_, err := frontend.NewWitness(&proofProbe{P: out}, R)
+					ok1 = err != nil
+				}
+				if !ok1 {
+					refused = false
+					reader = []string{"ReadProofWithPublicInputsFromRequest", "ReadProofWithPublicInputs"}[ri]
+				}
 			}
+			how := reader
 			if !refused {
 				pth := filepath.Join(r.outDir(), "replays", "C19", fmt.Sprintf("corrupt_%s_%s.json", sanitizePath(e.where), sanitizePath(bad.n)))
 				os.MkdirAll(filepath.Dir(pth), 0o755)
 				os.WriteFile(pth, text, 0o644)
-				r.addViolationWithReplay("malformed value accepted: "+bad.n, fmt.Sprintf("a document whose %s is a %s is read, deserialised and turned into a witness without refusal (the value is replaced by something else)", e.where, bad.n), map[string]any{"kind": "document", "file": pth, "expect": "refused"}, "real reading functions and gnark witness construction accept the corrupted document")
+				r.addViolationWithReplay("malformed value accepted: "+bad.n, fmt.Sprintf("a document whose %s is a %s is read by types.%s, deserialised and turned into a witness without refusal (the value is replaced by something else)", e.where, bad.n, reader), map[string]any{"kind": "document", "file": pth, "expect": "refused", "reader": reader}, "real reading functions and gnark witness construction accept the corrupted document")
 				continue
 			}
 			_ = how
 			ok++
+		}
+	}
+	return ok
+}
+
+type vdProbe struct {
+	V variables.VerifierOnlyCircuitData
+}
+
+func (c *vdProbe) Define(api frontend.API) error { return nil }
+
+// c19CorruptOther: single-value corruptions of the verifier-only data and of the common circuit data.
+func c19CorruptOther(r *Run, vdPath, commonPath string) int {
+	ok := 0
+	load := func(p string) map[string]any {
+		b, err := os.ReadFile(p)
+		if err != nil {
+			r.Infra("%v", err)
+			return nil
+		}
+		var doc map[string]any
+		dec := json.NewDecoder(bytes.NewReader(b))
+		dec.UseNumber()
+		dec.Decode(&doc)
+		return doc
+	}
+	report := func(file, where, what, reader string, text []byte) {
+		pth := filepath.Join(r.outDir(), "replays", "C19", fmt.Sprintf("corrupt_%s_%s_%s.json", file, sanitizePath(where), sanitizePath(what)))
+		os.MkdirAll(filepath.Dir(pth), 0o755)
+		os.WriteFile(pth, text, 0o644)
+		r.addViolationWithReplay("malformed value accepted ("+file+"): "+what, fmt.Sprintf("a %s document whose %s is %s is read by types.%s without refusal (the value is replaced by something else)", file, where, what, reader), map[string]any{"kind": "document-other", "file": pth, "reader": reader}, "real reading function accepts the corrupted document")
+	}
+	// verifier-only data
+	type vdEdit struct {
+		where string
+		apply func(d map[string]any, bad any)
+	}
+	for _, e := range []vdEdit{
+		{"constants_sigmas_cap[0]", func(d map[string]any, bad any) { d["constants_sigmas_cap"].([]any)[0] = bad }},
+		{"circuit_digest", func(d map[string]any, bad any) { d["circuit_digest"] = bad }},
+	} {
+		for _, bad := range []struct {
+			n string
+			v any
+		}{{"a number for a string", json.Number("17")}, {"a non-decimal string", "0x1f"}, {"a list for a string", []any{"1"}}, {"an underscored numeral", "1_000"}} {
+			doc := load(vdPath)
+			if doc == nil {
+				return ok
+			}
+			e.apply(doc, bad.v)
+			text, _ := json.Marshal(doc)
+			tmp := filepath.Join(r.Scratch, "c19_vd.json")
+			os.WriteFile(tmp, text, 0o644)
+			for ri, rd := range []func() types.VerifierOnlyCircuitDataRaw{
+				func() types.VerifierOnlyCircuitDataRaw { return types.ReadVerifierOnlyCircuitDataFromRequest(text) },
+				func() types.VerifierOnlyCircuitDataRaw { return types.ReadVerifierOnlyCircuitData(tmp) },
+			} {
+				var out variables.VerifierOnlyCircuitData
+				msg := catchPanic(func() { out = variables.DeserializeVerifierOnlyCircuitData(rd()) })
+				refused := msg != ""
+				if !refused {
+					_, err := frontend.NewWitness(&vdProbe{V: out}, R)
+					refused = err != nil
+				}
+				if !refused {
+					report("verifier-data", e.where, bad.n, []string{"ReadVerifierOnlyCircuitDataFromRequest", "ReadVerifierOnlyCircuitData"}[ri], text)
+				} else {
+					ok++
+				}
+			}
+		}
+	}
+	// common circuit data
+	type cEdit struct {
+		where string
+		apply func(d map[string]any, bad any)
+	}
+	cfg := func(d map[string]any) map[string]any { return d["config"].(map[string]any) }
+	fp := func(d map[string]any) map[string]any { return d["fri_params"].(map[string]any) }
+	for _, e := range []cEdit{
+		{"config.num_challenges", func(d map[string]any, bad any) { cfg(d)["num_challenges"] = bad }},
+		{"fri_params.degree_bits", func(d map[string]any, bad any) { fp(d)["degree_bits"] = bad }},
+		{"fri_params.reduction_arity_bits[0]", func(d map[string]any, bad any) { fp(d)["reduction_arity_bits"].([]any)[0] = bad }},
+		{"k_is[1]", func(d map[string]any, bad any) { d["k_is"].([]any)[1] = bad }},
+		{"quotient_degree_factor", func(d map[string]any, bad any) { d["quotient_degree_factor"] = bad }},
+		{"selectors_info.groups[0].start", func(d map[string]any, bad any) {
+			d["selectors_info"].(map[string]any)["groups"].([]any)[0].(map[string]any)["start"] = bad
+		}},
+	} {
+		for _, bad := range []struct {
+			n string
+			v any
+		}{{"negative", json.Number("-5")}, {"fractional", json.Number("1.5")}, {"over 64 bits", json.Number("18446744073709551616")}, {"a numeric string", "12"}, {"a list for a scalar", []any{json.Number("1")}}} {
+			doc := load(commonPath)
+			if doc == nil {
+				return ok
+			}
+			e.apply(doc, bad.v)
+			text, _ := json.Marshal(doc)
+			tmp := filepath.Join(r.Scratch, "c19_common_corrupt.json")
+			os.WriteFile(tmp, text, 0o644)
+			if msg := catchPanic(func() { types.ReadCommonCircuitData(tmp) }); msg == "" {
+				report("common-data", e.where, bad.n, "ReadCommonCircuitData", text)
+			} else {
+				ok++
+			}
 		}
 	}
 	return ok
@@ -514,10 +638,49 @@ type proofProbe struct {
 func (c *proofProbe) Define(api frontend.API) error { return nil }
 
 func init() {
+	replayKinds["document-other"] = func(prop, path string, raw json.RawMessage, repo string) int {
+		var c struct {
+			File   string `json:"file"`
+			Reader string `json:"reader"`
+		}
+		json.Unmarshal(raw, &c)
+		text, err := os.ReadFile(c.File)
+		if err != nil {
+			fmt.Println("replay:", err)
+			return 2
+		}
+		refused := false
+		switch c.Reader {
+		case "ReadCommonCircuitData":
+			refused = catchPanic(func() { types.ReadCommonCircuitData(c.File) }) != ""
+		default:
+			var out variables.VerifierOnlyCircuitData
+			msg := catchPanic(func() {
+				if c.Reader == "ReadVerifierOnlyCircuitData" {
+					out = variables.DeserializeVerifierOnlyCircuitData(types.ReadVerifierOnlyCircuitData(c.File))
+				} else {
+					out = variables.DeserializeVerifierOnlyCircuitData(types.ReadVerifierOnlyCircuitDataFromRequest(text))
+				}
+			})
+			refused = msg != ""
+			if !refused {
+				_, err := frontend.NewWitness(&vdProbe{V: out}, R)
+				refused = err != nil
+			}
+		}
+		fmt.Printf("replay %s: corrupted document %s read by types.%s -> refused=%v\n", prop, c.File, c.Reader, refused)
+		if !refused {
+			fmt.Printf("VIOLATION property=%s replay=%s\n", prop, path)
+			return 1
+		}
+		fmt.Println("not reproduced on the current tree")
+		return 0
+	}
 	replayKinds["document"] = func(prop, path string, raw json.RawMessage, repo string) int {
 		var c struct {
 			File   string `json:"file"`
 			Expect string `json:"expect"`
+			Reader string `json:"reader"`
 		}
 		json.Unmarshal(raw, &c)
 		text, err := os.ReadFile(c.File)
@@ -528,7 +691,11 @@ func init() {
 		var out variables.ProofWithPublicInputs
 		var pis []uint64
 		msg := catchPanic(func() {
-			out, pis = variables.DeserializeProofWithPublicInputs(types.ReadProofWithPublicInputsFromRequest(text))
+			if c.Reader == "ReadProofWithPublicInputs" {
+				out, pis = variables.DeserializeProofWithPublicInputs(types.ReadProofWithPublicInputs(c.File))
+			} else {
+				out, pis = variables.DeserializeProofWithPublicInputs(types.ReadProofWithPublicInputsFromRequest(text))
+			}
 		})
 		if c.Expect == "refused" {
 			refused := msg != ""
